@@ -52,7 +52,7 @@ CHECKS = {
             'DESIGN.md §4 C03'),
     'C04': ('fault_enumeration',
             'complete enumeration of a fault matrix (name-source pairs, reserved names, next/context misuse) on fixed base shapes + Hypothesis-varied bases',
-            'Each cell of the fault matrix (about 400 cells x provider with/without function; reserved names also as keyword-only parameters; render_error functions requiring context; a function object first bound validly in the render role and then declared where context is misuse) is injected into 3 fixed valid '
+            'Each cell of the fault matrix (about 400 cells x provider with/without function; reserved names also as keyword-only parameters; render_error functions requiring context; a function object first bound validly in the render role and then declared where context is misuse; renders taking next that a render factory makes) is injected into 3 fixed valid '
             'configurations (complete) and into generated valid configurations (sampled); construction must fail (NameError '
             'for conflicts / reserved names) while the un-faulted control constructs and serves.',
             'the matrix is complete only for the listed source kinds and placements; same-kind resource overlaps are not asserted',
